@@ -6,7 +6,8 @@ LEVEL_TEXT = ("Clause-level static rules for the structural half of the terminat
               "stored iterate; the descending loop is bounded by descending_iterations with a counter only the loop header "
               "advances. Stabilisation of each domain's widening operator on arbitrary chains is a numeric/graph question "
               "and is NOT decided, except for the shape clauses listed per rule (interval bounds drawn from own bound / infinity / threshold; "
-              "dis_interval widening never copies an interval of its right argument verbatim; product widenings are componentwise).")
+              "dis_interval widening never copies an interval of its right argument verbatim; product widenings are componentwise)."
+              " The Patricia merge keeps (old, new) in order in every recursive call; the term-domain widening must hand the base widening an untransformed left argument (known finding F96).")
 ASSUMPTIONS = ["each domain's widening operator stabilises when applied as old.widening(new) (only shape clauses checked)",
                "the CFG / call graph is finite"]
 
